@@ -253,3 +253,58 @@ pub fn explore_mo(depth: usize, eq_only: bool) -> Option<String> {
 }
 #[allow(dead_code)]
 fn _unused() { let _ = (Dot::new(0u8, 0), VClock::<u8>::new(), mvreg::Op::Put { clock: VClock::<u8>::new(), val: 0u8 }); }
+
+// ---------------------------------------------------------------- Map<_, Orswot>: reads under causal op delivery
+/// Map<u8, Orswot<u8,u8>, u8>, ops only, causal delivery (each replica forwards its applied ops in its own order):
+/// replicas with the same delivered set show the same keys, the same members under each key and the same contexts.
+/// (Merges are excluded here: mixing them in runs into known finding F03; `==` is not compared: known finding F20.)
+fn mo_reads(m: &MO) -> Vec<(u8, Vec<(u8, Vec<(u8, u64)>)>, Vec<(u8, u64)>)> {
+    // per present key: its members with their witness contexts, and the key's own context
+    (0..3u8).filter_map(|k| { let g = m.get(&k); g.val.map(|s| {
+        let mut v: Vec<u8> = s.read().val.into_iter().collect(); v.sort();
+        let ms: Vec<(u8, Vec<(u8, u64)>)> = v.into_iter().map(|x| (x, s.contains(&x).rm_clock.dots.iter().map(|(a, n)| (*a, *n)).collect())).collect();
+        (k, ms, g.rm_clock.dots.iter().map(|(a, n)| (*a, *n)).collect()) }) }).collect()
+}
+
+pub fn search_mo(r: &mut Report, tier: &str, seed: u64) {
+    let (n, len) = if tier == "thorough" { (300000, 14) } else { (30000, 12) };
+    r.target = "Map<u8, Orswot<u8,u8>, u8> value layer under causal OP delivery (C01, C08, C09 rows of Map): same delivered ops => same keys, members and key contexts; a re-delivered op changes nothing".into();
+    r.bound = format!("{} random programs of {} steps over 3 replicas, keys {{0,1}}, members {{0,1,2}}: nested add / nested rm / key rm with read contexts, causal delivery, re-delivery (seed {}); merges excluded (known finding F03), == not compared (known finding F20)", n, len, seed);
+    let mut s = seed.wrapping_add(0x3141592653);
+    for _ in 0..n {
+        let mut reps: Vec<MO> = vec![MO::new(), MO::new(), MO::new()];
+        let mut log: Vec<Vec<usize>> = vec![vec![]; 3];
+        let mut ops: Vec<Op<u8, Orswot<u8, u8>, u8>> = vec![];
+        let mut desc = String::new();
+        for _ in 0..len {
+            let i = (lcg(&mut s) % 3) as usize;
+            let actor = (i + 1) as u8;
+            let k = (lcg(&mut s) % 2) as u8;
+            let mb = (lcg(&mut s) % 3) as u8;
+            match lcg(&mut s) % 9 {
+                0 | 1 | 2 => { let ctx = reps[i].read_ctx().derive_add_ctx(actor); let op = reps[i].update(k, ctx, |set, c| set.add(mb, c)); reps[i].apply(op.clone()); ops.push(op); log[i].push(ops.len() - 1); desc.push_str(&format!(" r{}:add({},{})", i, k, mb)); }
+                3 => { let ctx = reps[i].read_ctx().derive_add_ctx(actor); let op = reps[i].update(k, ctx, |set, _c| set.rm(mb, set.contains(&mb).derive_rm_ctx())); reps[i].apply(op.clone()); ops.push(op); log[i].push(ops.len() - 1); desc.push_str(&format!(" r{}:nrm({},{})", i, k, mb)); }
+                4 => { let op = reps[i].rm(k, reps[i].get(&k).derive_rm_ctx()); reps[i].apply(op.clone()); ops.push(op); log[i].push(ops.len() - 1); desc.push_str(&format!(" r{}:rmkey({})", i, k)); }
+                5 | 6 | 7 => {
+                    let j = (i + 1 + (lcg(&mut s) % 2) as usize) % 3;
+                    let have: BTreeSet<usize> = log[i].iter().copied().collect();
+                    if let Some(&o) = log[j].iter().find(|o| !have.contains(o)) { reps[i].apply(ops[o].clone()); log[i].push(o); desc.push_str(&format!(" r{}<-op{}", i, o)); }
+                }
+                _ => {
+                    if log[i].is_empty() { continue; }
+                    let o = log[i][(lcg(&mut s) as usize) % log[i].len()];
+                    let before = mo_reads(&reps[i]);
+                    reps[i].apply(ops[o].clone());
+                    desc.push_str(&format!(" r{}<-dup(op{})", i, o));
+                    let after = mo_reads(&reps[i]);
+                    r.case("map_orswot.redelivery_changes_nothing", before == after, &|| desc.clone(), &|| format!("before {:?} after {:?}", before, after));
+                }
+            }
+            for a in 0..3 { for b in 0..a {
+                let sa: BTreeSet<usize> = log[a].iter().copied().collect(); let sb: BTreeSet<usize> = log[b].iter().copied().collect();
+                if sa == sb { let (ra, rb) = (mo_reads(&reps[a]), mo_reads(&reps[b])); r.case("map_orswot.same_ops_same_reads", ra == rb, &|| desc.clone(), &|| format!("r{} reads {:?}, r{} reads {:?}", a, ra, b, rb)); }
+            } }
+            if r.failures > 0 { return; }
+        }
+    }
+}
